@@ -15,6 +15,7 @@ import (
 	"sync/atomic"
 	"time"
 
+	"mosn.io/mosn/pkg/metrics"
 	"mosn.io/mosn/pkg/network"
 	"mosn.io/mosn/pkg/server"
 	"mosn.io/mosn/pkg/stagemanager"
@@ -213,6 +214,15 @@ func runGSOnce(c *hx.Ctx, g gsCase) (string, []string) {
 		}
 	} else {
 		time.Sleep(15 * time.Millisecond) // let the partial bytes be read by the connection's read loop
+		if g.proto == "h2" && (g.phase == "body" || g.phase == "dfr") {
+			// precondition of the case: MOSN has processed the HEADERS frame (the stream exists and is counted) before
+			// the signal; on a loaded machine 15 ms are not always enough. Bounded: a stream that never appears makes
+			// the case fail as it should.
+			for dl := time.Now().Add(2 * time.Second); time.Now().Before(dl) &&
+				metrics.NewListenerStats(m.name).Counter(metrics.DownstreamRequestActive).Count() < 1; {
+				time.Sleep(time.Millisecond)
+			}
+		}
 	}
 
 	// the successor (new MOSN of a hot upgrade) takes over the listening socket through the exported fd path. It is
